@@ -154,6 +154,17 @@ static CommandSignature getCommandHash(const ninja::Command* command) {
   CommandSignature hash(command->getCommandString());
   if (!command->getRspFile().empty())
     hash = hash.combine(command->getRspFileContent());
+
+  // Also cover the declared explicit and implicit inputs. Only the inputs a
+  // command requested when it last ran are recorded as its dependencies, so an
+  // input which is added to the build statement without changing the command
+  // line (typically an implicit one) would otherwise never be looked at.
+  // Order-only inputs do not take part: they never trigger a rebuild.
+  hash = hash.combine(std::to_string(command->getNumExplicitInputs()));
+  for (auto it = command->explicitInputs_begin(),
+         ie = command->implicitInputs_end(); it != ie; ++it) {
+    hash = hash.combine((*it)->getCanonicalPath());
+  }
   return hash;
 }
 
